@@ -126,6 +126,9 @@ func runProto(pc *ProtoCase, o protoOpts) (labels map[string]bool, excluded map[
 		}
 	}
 	if o.counters {
+		if e := waitRotationFlushes(); e != nil {
+			return labels, excluded, e
+		}
 		srv.hstore.VerifFlush(true)
 		if msg := counters(); msg != "" {
 			// known per-command leaks: tolerated only if the residue is exactly what the executed commands of the
@@ -157,6 +160,9 @@ func runProto(pc *ProtoCase, o protoOpts) (labels map[string]bool, excluded map[
 			return labels, excluded, fmt.Errorf("second workload: %v", e)
 		}
 		if e := srv.waitConns(idleNet); e != nil {
+			return labels, excluded, e
+		}
+		if e := waitRotationFlushes(); e != nil {
 			return labels, excluded, e
 		}
 		srv.hstore.VerifFlush(true)
